@@ -277,7 +277,10 @@ def _nested_archive(ext, tag):
 
 
 _STEMS = ["report", "notes", "data 1", "BZnotes", "PKlist", "7zip-howto", "übersicht", "日本語", "s\U0001F600mile", "a.b", "x-1",
-          "README", "Q3_final"]
+          "README", "Q3_final",
+          # UTF-16LE byte patterns that contain 00 00 across a character boundary (ASCII / Latin-1 char followed by a
+          # U+xx00 character) or inside the name: a byte-pair search for the terminator would cut the name there
+          "Q1\u6700\u7ec8", "a\u4e00b", "x\u2200y", "n\u0100", "\u0100\u0100", "z\u3000"]
 _DIRS = ["", "", "d", "d/e", "docs", "BZ", "ünï", "__MACOSX", "a b"]
 
 
